@@ -61,6 +61,9 @@ def variants() -> List[tuple]:
                     # activation that is over is discarded like its result
                     out.append((kind, "zombie", onerr, "plain"))
                     out.append((kind, "zombie", False, "plain"))
+                    # ... or swallows its cancellation and RETURNS a value: a result produced by an activation that is
+                    # over - discarded even when the state has been re-entered meanwhile
+                    out.append((kind, "zombie-ret", True, "plain"))
                 # the invoking state is COMPOUND and GO targets one of its descendants (entry through an explicit child
                 # path), SELF still targets the state itself
                 out.append((kind, outcome, onerr, "plain", "compound"))
@@ -89,6 +92,14 @@ def make(variant, rec, clock) -> Dict[str, Any]:
             except asyncio.CancelledError:
                 rec.log.append(("SVCEND", k, clock()))
                 raise ValueError(f"clean-up of call {k} failed")
+            rec.log.append(("SVCEND", k, clock()))
+            return f"r{k}"
+        if outcome == "zombie-ret":
+            try:
+                await asyncio.sleep(DUR)
+            except asyncio.CancelledError:
+                rec.log.append(("SVCEND", k, clock()))
+                return f"partial{k}"
             rec.log.append(("SVCEND", k, clock()))
             return f"r{k}"
         await asyncio.sleep(DUR)
@@ -201,7 +212,7 @@ def scripts(maxlen: int) -> List[List[tuple]]:
 def judge(variant, engine, script, log, d) -> List[Tuple[str, str]]:
     kind, outcome, onerr, entry = variant[:4]
     zombie = outcome == "zombie"
-    if zombie:
+    if zombie or outcome == "zombie-ret":
         outcome = "return"   # a call that completes returns; a cancelled call's failure must have no effect at all
     shape = variant[4] if len(variant) > 4 else "atomic"
     bad: List[Tuple[str, str]] = []
